@@ -226,18 +226,24 @@ Proof.
   rewrite mid_raw_step by exact H. reflexivity.
 Qed.
 
-Lemma w_write_u32_mid a done n v :
+Lemma write_u32_mid a done n v :
   4 <= n ->
-  w_write_u32 (mid a done n) (size a + cells_size done) v
-  = (Ok tt, mid a (done ++ [CRaw (enc (a_endian a) 4 v)]) (n - 4), size a + cells_size done + 4).
+  write_u32 (mid a done n) (size a + cells_size done) v = Ok (mid a (done ++ [CRaw (enc (a_endian a) 4 v)]) (n - 4)).
 Proof.
-  intros H. unfold w_write_u32, write_u32. rewrite <- mid_pos.
-  rewrite (write_uint_tail _ _ n 4 v (mid_data a done n)) by (cbn; lia). cbn [wr]. f_equal. f_equal.
+  intros H. unfold write_u32. rewrite <- mid_pos.
+  rewrite (write_uint_tail _ _ n 4 v (mid_data a done n)) by (cbn; lia). f_equal.
   rewrite mid_endian. change (N.of_nat 4) with 4.
   pose proof (mid_raw_step a done n (enc (a_endian a) 4 v)) as P.
   assert (Hl : lenN (enc (a_endian a) 4 v) = 4) by (unfold lenN; rewrite length_enc; reflexivity).
   rewrite Hl in P. apply P. exact H.
 Qed.
+Lemma w_write_u32_mid a done n v :
+  4 <= n ->
+  w_write_u32 (mid a done n) (size a + cells_size done) v
+  = (Ok tt, mid a (done ++ [CRaw (enc (a_endian a) 4 v)]) (n - 4), size a + cells_size done + 4).
+Proof. intros H. unfold w_write_u32. rewrite write_u32_mid by exact H. reflexivity. Qed.
+Lemma allocate_is_append a n : allocate_at_end a n = append_cells a [CRaw (zeros (N.to_nat n))].
+Proof. unfold allocate_at_end, append_cells. apply archive_eq; cbn; rewrite ?app_nil_r; reflexivity. Qed.
 Lemma w_write_f32_mid a done n v :
   4 <= n ->
   w_write_f32 (mid a done n) (size a + cells_size done) v
